@@ -34,6 +34,8 @@ func (Engine) Scenarios(property string) []string {
 		return []string{"disk", "disk-untracked"}
 	case "C11":
 		return []string{"model-halt", "disk-halt"}
+	case "C16":
+		return []string{"links-scan", "links-mixed"}
 	case "C18":
 		return []string{"model-exec"}
 	case "C29":
@@ -48,6 +50,8 @@ func (Engine) Generate(property, scenario string, seed uint64, tier string) *sim
 	switch scenario {
 	case "model", "model-untracked", "model-outcomes", "model-halt", "model-exec", "lifecycle", "disk", "disk-untracked", "disk-halt":
 		genModel(p, r, tier)
+	case "links-scan", "links-mixed":
+		genLinks(p, r, tier)
 	default:
 		genComponent(p, r, tier)
 	}
@@ -56,7 +60,7 @@ func (Engine) Generate(property, scenario string, seed uint64, tier string) *sim
 
 func (Engine) Execute(t *testing.T, plan *simkit.Plan) *simkit.Result {
 	switch plan.Scenario {
-	case "model", "model-untracked", "model-outcomes", "model-halt", "model-exec", "lifecycle", "disk", "disk-untracked", "disk-halt":
+	case "model", "model-untracked", "model-outcomes", "model-halt", "model-exec", "lifecycle", "disk", "disk-untracked", "disk-halt", "links-scan", "links-mixed":
 		return execSession(t, plan)
 	}
 	if r := execComponent(t, plan); r != nil {
